@@ -74,6 +74,14 @@ def check_pins():
     got = [ast.unparse(st) for st in body[-2:]]
     if _dumps(body[-2:]) != _pin_dumps(PINNED['get_tokens.scan']):
         raise Unsupported(f'Lexer.get_tokens: scan loop is {got!r}; the model was written from {PINNED["get_tokens.scan"]!r}')
+    # utils.consume: the body the model's skip counter was written from, and its behaviour for small and LARGE n
+    usrc = open(os.path.join(REPO, 'sqlparse', 'utils.py'), encoding='utf-8').read()
+    ufuns = {n.name: n for n in ast.parse(usrc).body if isinstance(n, ast.FunctionDef)}
+    if 'consume' not in ufuns:
+        raise Unsupported('utils.consume not found')
+    if _dumps(_body(ufuns['consume'])) != _pin_dumps(["deque(itertools.islice(iterator, n), maxlen=0)"]):
+        raise Unsupported('utils.consume: body is %r; the model was written from deque(itertools.islice(iterator, n), maxlen=0)'
+                          % [ast.unparse(st) for st in _body(ufuns['consume'])])
     # consume(iterator, n) advances the iterator by n
     from sqlparse import utils
     it = iter(range(10))
@@ -85,6 +93,11 @@ def check_pins():
     utils.consume(it, -1) if False else None
     if next(it) != 0:
         raise Unsupported('utils.consume(iterator, 0) is not a no-op')
+    for big in (4095, 4096, 4097, 65535, 65536, 1 << 20):
+        it = iter(range(big + 5))
+        utils.consume(it, big)
+        if next(it) != big:
+            raise Unsupported(f'utils.consume(iterator, {big}) does not advance the iterator by {big}')
 
 
 def generate():
